@@ -85,7 +85,7 @@ inductive Ack
   | pubrel (pkid : Nat)
   | pubcomp (pkid : Nat)
   | suback (pkid : Nat) (codes : List Nat)
-  | unsuback (pkid : Nat)
+  | unsuback (pkid : Nat) (reasons : List Bool)   -- true = Success, false = NoSubscriptionExisted
   | pingresp
 deriving Repr, DecidableEq
 
